@@ -197,6 +197,16 @@ func (p *Prog) indexSingleCallers() {
 			}
 		})
 	}
+	allSites = map[*ssa.Function][]ssa.CallInstruction{}
+	for f, cs := range sites {
+		if escaped[f] || f.Parent() != nil || !InRepo(f) || f.Object() == nil || f.Object().Exported() {
+			continue
+		}
+		if f.Signature.Recv() != nil && ifaceMethods[f.Name()] {
+			continue
+		}
+		allSites[f] = cs
+	}
 	singleCaller = map[*ssa.Function]ssa.CallInstruction{}
 	for f, cs := range sites {
 		if len(cs) != 1 || escaped[f] || f.Parent() != nil || !InRepo(f) || f.Object() == nil || f.Object().Exported() {
@@ -213,6 +223,12 @@ func (p *Prog) indexSingleCallers() {
 }
 
 var singleCaller map[*ssa.Function]ssa.CallInstruction
+var allSites map[*ssa.Function][]ssa.CallInstruction
+
+// StaticCallSites returns every call site of an unexported repository function that is
+// only ever called statically (never used as a value, not reachable through an
+// interface); nil when the set of callers is not known completely.
+func StaticCallSites(fn *ssa.Function) []ssa.CallInstruction { return allSites[fn] }
 
 // SingleCallSite returns the only static call site of an unexported repository function
 // that is never used as a value (nil otherwise).
